@@ -18,6 +18,23 @@ static const struct { const char *defaults; const char *opt; } c19_envs[] = {
 };
 static const char *const c19_opts[] = { NULL, "-c", "-k", "-f", "-d", "-z", "-t", "--stdout" };
 
+void
+c19_args_reset(void)
+{
+	unsetenv("XZ_DEFAULTS");
+	unsetenv("XZ_OPT");
+	opt_stdout = false;
+	opt_force = false;
+	opt_keep_original = false;
+	opt_synchronous = true;
+	opt_robot = false;
+	opt_ignore_check = false;
+	opt_mode = MODE_COMPRESS;
+	opt_format = FORMAT_AUTO;
+	c19_set_suffix(NULL);
+	optind = 0;             // GNU getopt: full re-initialisation
+}
+
 int
 c19_args_run(const char *prog, const char *env_defaults, const char *env_opt, const char *o1, const char *o2)
 {
